@@ -97,8 +97,24 @@ def cases(rng, tier):
     while len(pairs) < npairs:
         a, b2 = rng.sample(names, 2)
         pairs.append((a, b2))
+    # two datasets served by the same loader module, the first one requested with explicit options
+    for fam in ("ix-br", "ams-ix", "mix-it"):
+        members = [n for n in names if n.startswith(fam)]
+        if len(members) >= 2:
+            for kw in ({"unpack_dataset_columns": True}, {"download_even_if_available": True, "n_retries": 0}):
+                a, b2 = rng.sample(members, 2)
+                yield {"kind": "pair", "first": a, "second": b2, "first_kwargs": kw}
     for i, (a, b2) in enumerate(pairs):
-        yield {"kind": "pair", "first": a, "second": b2} if i % 4 else {"kind": "pair", "first": a, "second": b2, "home_fs": "other"}
+        c = {"kind": "pair", "first": a, "second": b2} if i % 4 else {"kind": "pair", "first": a, "second": b2, "home_fs": "other"}
+        if i % 3 == 1:
+            c["first_kwargs"] = rng.choice([{"unpack_dataset_columns": True}, {"download_even_if_available": True, "n_retries": 0},
+                                            {"download_if_missing": True, "n_retries": 2}, {"n_retries": 1, "delay": 0.0}])
+        if i % 6 == 1:
+            # two datasets of the same family (they share a module)
+            fam = [n for n in names if n.split("_")[0].split("-")[:2] == a.split("_")[0].split("-")[:2] and n != a]
+            if fam:
+                c["second"] = rng.choice(fam)
+        yield c
     # schedules
     ns = {"quick": 20, "thorough": 300}.get(tier, 6)
     for i in range(ns):
@@ -146,9 +162,22 @@ def load_pair(c):
         base.urlretrieve, base._sha256 = fake_retrieve, fake_sha
         os.environ["TRAFFIC_WEAVER_DATA"] = home
         try:
+            import traffic_weaver.datasets._datasets as dsmod
+
+            def fetch(name, **kw):
+                # the public per-dataset functions take the loader's options; load_dataset forwards only the unpack flag
+                return getattr(dsmod, "fetch_" + name.replace("-", "_"))(**kw)
             if mode == "after":
-                load_dataset(c["first"])
-            res[mode] = np.asarray(load_dataset(c["second"])).tolist()
+                if c.get("first_kwargs"):
+                    fetch(c["second"])                 # the second dataset is in the cache already
+                    # the first load passes explicit options; they are the FIRST load's business only
+                    fetch(c["first"], **c["first_kwargs"])
+                else:
+                    load_dataset(c["first"])
+                before = len(paths)
+            res[mode] = np.asarray(fetch(c["second"]) if c.get("first_kwargs") else load_dataset(c["second"])).tolist()
+            if mode == "after" and c.get("first_kwargs"):
+                res["network_on_cached"] = len(paths) > before
         except Exception as e:  # noqa
             res[mode] = {"err": type(e).__name__}
         finally:
@@ -333,6 +362,9 @@ def oracle(c, io):
                     f"A {io.get('A')}, B {io.get('B')} after {io.get('attempts_B')} download attempt(s) (a transient error "
                     f"must be absorbed by the retry), cache entries {io.get('entries')}")
         return None
+    if c["kind"] == "pair" and io.get("network_on_cached"):
+        return (f"load_dataset({c['second']!r}) went to the network although the dataset was in the cache, after "
+                f"{c['first']!r} had been loaded with {c.get('first_kwargs')}: one load's options leak into the next")
     if c["kind"] == "pair":
         if io["alone"] != io["after"] or isinstance(io["alone"], dict):
             return (f"what load_dataset({c['second']!r}) returns depends on whether {c['first']!r} was loaded before "
